@@ -15,6 +15,7 @@ import (
 	"reflect"
 	"runtime"
 	"sync"
+	"sync/atomic"
 	"time"
 
 	"github.com/ethereum/go-ethereum/event"
@@ -244,11 +245,23 @@ type cfg struct {
 }
 
 type runInfo struct {
+	panicMsg   string
 	timeout    bool
 	rendezvous bool
 	lateSub    bool
 	asyncUnsub bool
 	nUnsub     int
+}
+
+// 20 s is far beyond any correct run (milliseconds); once one scenario has hung in this
+// process the tree is already known to be broken and later scenarios wait 2 s only.
+var sawTimeout atomic.Bool
+
+func watchdog() time.Duration {
+	if sawTimeout.Load() {
+		return 2 * time.Second
+	}
+	return 20 * time.Second
 }
 
 // runFeed executes one concurrent scenario on the real implementation and returns the
@@ -267,6 +280,16 @@ func runFeed(c cfg) ([]ev, runInfo) {
 	done := make(chan struct{})
 	var sendWG, subWG sync.WaitGroup
 	start := make(chan struct{})
+	// a panic inside the implementation (on any goroutine) is recorded, not fatal
+	panicCh := make(chan string, 64)
+	guard := func(what string) {
+		if e := recover(); e != nil {
+			select {
+			case panicCh <- fmt.Sprintf("panic in %s: %v", what, e):
+			default:
+			}
+		}
+	}
 
 	type subSt struct {
 		ch       chan int
@@ -300,6 +323,7 @@ func runFeed(c cfg) ([]ev, runInfo) {
 		subWG.Add(1)
 		go func() {
 			defer subWG.Done()
+			defer guard("Subscribe/Unsubscribe")
 			<-start
 			if late {
 				for i := r.Intn(6); i >= 0; i-- {
@@ -337,6 +361,7 @@ func runFeed(c cfg) ([]ev, runInfo) {
 				subWG.Add(1)
 				go func() {
 					defer subWG.Done()
+					defer guard("Unsubscribe")
 					for i := r2.Intn(10); i >= 0; i-- {
 						perturb(r2)
 					}
@@ -378,6 +403,7 @@ func runFeed(c cfg) ([]ev, runInfo) {
 		sendWG.Add(1)
 		go func() {
 			defer sendWG.Done()
+			defer guard("Send")
 			<-start
 			for j := 0; j < c.sendsPer; j++ {
 				perturb(r)
@@ -396,14 +422,25 @@ func runFeed(c cfg) ([]ev, runInfo) {
 		subWG.Wait()
 		close(finished)
 	}()
+	snapshot := func() []ev {
+		rec.mu.Lock()
+		defer rec.mu.Unlock()
+		return append([]ev{}, rec.evs...)
+	}
 	select {
 	case <-finished:
-	case <-time.After(20 * time.Second):
+		select {
+		case info.panicMsg = <-panicCh:
+			return snapshot(), info
+		default:
+		}
+	case info.panicMsg = <-panicCh:
+		// the feed is left in an undefined state (sendLock may never be released)
+		return snapshot(), info
+	case <-time.After(watchdog()):
 		info.timeout = true
-		rec.mu.Lock()
-		out := append([]ev{}, rec.evs...)
-		rec.mu.Unlock()
-		return out, info
+		sawTimeout.Store(true)
+		return snapshot(), info
 	}
 	// late drain: anything still sitting in the channel of an unsubscribed subscription now
 	// was delivered after its Unsubscribe returned (it drained the channel right after)
@@ -697,8 +734,10 @@ func run(c Sx) Result {
 		h, info := runFeed(cf)
 		bits, why := checkHistory(h)
 		res := Result{Obs: bitsSx([6]bool{true, true, true, true, true, true})}
-		if info.timeout {
-			res.Oracle = "the scenario did not finish within 20s (a Send or Unsubscribe is blocked forever)"
+		if info.panicMsg != "" {
+			res.Oracle = info.panicMsg
+		} else if info.timeout {
+			res.Oracle = "the scenario did not finish within the watchdog time (a Send or Unsubscribe is blocked forever)"
 		} else if why != "" {
 			res.Oracle = why
 		}
@@ -862,11 +901,19 @@ func gen(r *Rng, tier string, emit func(Sx)) {
 	if tier == "thorough" {
 		nHist = 3000
 	}
+	hung := 0
 	for i := 0; i < nHist; i++ {
 		c := cfg{variant: i % 2, seed: r.U64() >> 1, nSenders: r.Range(2, 4), sendsPer: r.Range(2, 7), nSubs: r.Range(2, 6)}
 		mr := r.Fork() // history-dependent draws must not perturb the scenario stream
-		h, _ := runFeed(c)
+		h, info := runFeed(c)
 		emit(L(I(1), cfgSx(c), evsSx(h)))
+		if info.timeout || info.panicMsg != "" {
+			// the implementation hangs or panics: the cases emitted so far reproduce it
+			if hung++; hung >= 3 {
+				break
+			}
+			continue
+		}
 		if i%2 == 1 || mr.Chance(1, 2) {
 			m, hm := mutate(mr, h)
 			emit(L(I(2), L(I(int64(m))), evsSx(hm)))
